@@ -1350,3 +1350,185 @@ Lemma idempotent_of_roundtrip : forall d,
   exists y l, legacy_to_yang d = Ok y /\ yang_to_legacy y = Ok l /\ legacy_to_yang l = Ok y /\
               (exists y', legacy_to_yang l = Ok y' /\ yang_to_legacy y' = Ok l).
 Proof. intros d (y & H1 & H2). exists y, d. repeat split; try assumption. exists y. auto. Qed.
+
+(* ------------------------------------------------------------------ whole documents: services *)
+Lemma jset_same : forall k v o, jget k o = Some v -> jset k v o = o.
+Proof.
+  intros k v o; induction o as [|[k' v'] t IH]; cbn; [discriminate|].
+  destruct (String.eqb k k') eqn:E.
+  - intros H. injection H as <-. reflexivity.
+  - intros H. now rewrite IH.
+Qed.
+
+Lemma mapM_id : forall {A} (f : A -> res A) l, Forall (fun x => f x = Ok x) l -> mapM f l = Ok l.
+Proof.
+  intros A f l H; induction H as [|x t Hx Ht IH]; [reflexivity|]. rewrite mapM_cons, Hx. cbn [bind]. now rewrite IH.
+Qed.
+
+Lemma upd_sub_id : forall key g e po, jget key e = Some (JObj po) -> g po = Ok po -> upd_sub key g e = Ok e.
+Proof.
+  intros key g e po H Hg. unfold upd_sub, jreq. rewrite H. cbn [bind as_obj]. rewrite Hg. cbn [bind].
+  now rewrite (jset_same _ _ _ H).
+Qed.
+
+(* a route object whose list key `index` already comes first (or that has none) *)
+Definition route_item_ok (it : json) : bool :=
+  match it with
+  | JObj ((k, v) :: t) =>
+      if String.eqb k "index" then negb (jhas "index" t) && match v with JNull => false | _ => true end
+      else negb (jhas "index" ((k, v) :: t))
+  | JObj [] => true
+  | _ => false
+  end.
+Lemma reorder_item_id : forall it, route_item_ok it = true -> reorder_item "index" it = Ok it.
+Proof.
+  intros [| | | | |[|[k v] t]] H; try discriminate; [reflexivity|].
+  unfold reorder_item. cbn [as_obj bind]. unfold route_item_ok in H.
+  destruct (String.eqb k "index") eqn:E.
+  - apply String.eqb_eq in E. subst k. apply andb_true_iff in H as [H1 H2]. apply negb_true_iff in H1.
+    cbn [jget]. rewrite String.eqb_refl. cbn [jdel]. rewrite String.eqb_refl.
+    assert (Hn : jget "index" t = None) by (unfold jhas in H1; destruct (jget "index" t); [discriminate|reflexivity]).
+    rewrite (jdel_notin _ _ Hn). destruct v; try reflexivity. discriminate.
+  - apply negb_true_iff in H. unfold jhas in H. destruct (jget "index" ((k, v) :: t)); [discriminate|reflexivity].
+Qed.
+
+Definition slot_ok (s : json) : bool :=
+  match s with
+  | JObj so => match so with [] => false | _ => true end
+               && match jget "N" so with Some JNull => false | _ => true end
+               && match jget "M" so with Some JNull => false | _ => true end
+  | _ => false
+  end.
+Lemma pop_if_none_id : forall k o, match jget k o with Some JNull => false | _ => true end = true -> pop_if_none k o = o.
+Proof. intros k o H. unfold pop_if_none. destruct (jget k o) as [[| | | | |]|]; try reflexivity. discriminate. Qed.
+
+Lemma set_nth_same : forall l i s, nth_error l i = Some s -> set_nth l i s = l.
+Proof.
+  induction l as [|x t IH]; intros [|i] s H; cbn in *; try discriminate.
+  - now injection H as ->.
+  - now rewrite IH.
+Qed.
+
+Lemma slot_loop_id : forall fuel i l, forallb slot_ok l = true -> slot_loop fuel i l = Ok l.
+Proof.
+  induction fuel as [|fuel IH]; intros i l H; [reflexivity|]. cbn [slot_loop].
+  destruct (nth_error l i) as [s|] eqn:E; [|reflexivity].
+  assert (Hs : slot_ok s = true) by (rewrite forallb_forall in H; apply H; eapply nth_error_In; eauto).
+  destruct s as [| | | | |so]; try discriminate. cbn [as_obj bind]. unfold slot_ok in Hs.
+  apply andb_true_iff in Hs as [Hs H3]. apply andb_true_iff in Hs as [H1 H2].
+  rewrite (pop_if_none_id "N" so H2), (pop_if_none_id "M" so H3), (set_nth_same _ _ _ E).
+  destruct so; [discriminate|]. now apply IH.
+Qed.
+
+Definition te_ok (te : obj) : bool :=
+  match jget "effective-freq-slot" te with
+  | None => true
+  | Some (JArr (s :: t)) => forallb slot_ok (s :: t)
+  | Some _ => false
+  end
+  && match jget "max-nb-of-channel" te with Some JNull => false | _ => true end
+  && match jget "trx_mode" te with Some JNull => false | _ => true end
+  && match jget "output-power" te with Some JNull => false | _ => true end.
+Lemma union_te_id : forall te, te_ok te = true -> union_te te = Ok te.
+Proof.
+  intros te H. unfold te_ok in H.
+  apply andb_true_iff in H as [H H4]. apply andb_true_iff in H as [H H3]. apply andb_true_iff in H as [H1 H2].
+  unfold union_te.
+  assert (E : match jget "effective-freq-slot" te with
+              | None => Ok te
+              | Some fs => if truthy fs
+                           then let* l := as_arr fs in let* l' := slot_loop (length l) 0 l in
+                                Ok (match l' with [] => jdel "effective-freq-slot" te
+                                                | _ => jset "effective-freq-slot" (JArr l') te end)
+                           else Ok te
+              end = Ok te).
+  { destruct (jget "effective-freq-slot" te) as [fs|] eqn:Ef; [|reflexivity].
+    destruct fs as [| | | |[|s t]|]; try discriminate.
+    cbn [truthy as_arr bind]. rewrite (slot_loop_id _ 0 (s :: t) H1). cbn [bind].
+    now rewrite (jset_same _ _ _ Ef). }
+  rewrite E. cbn [bind].
+  now rewrite (pop_if_none_id _ _ H2), (pop_if_none_id _ _ H3), (pop_if_none_id _ _ H4).
+Qed.
+
+Definition request_ok (r : json) : bool :=
+  match r with
+  | JObj ro =>
+      match jget "explicit-route-objects" ro with
+      | None => true
+      | Some (JObj ero) => match jget "route-object-include-exclude" ero with
+                           | Some (JArr items) => forallb route_item_ok items
+                           | _ => false
+                           end
+      | Some _ => false
+      end
+      && match jget "path-constraints" ro with
+         | Some (JObj pc) => match jget "te-bandwidth" pc with Some (JObj te) => te_ok te | _ => false end
+         | _ => false
+         end
+  | _ => false
+  end.
+
+Lemma reorder_route_request_id : forall ro, request_ok (JObj ro) = true -> reorder_route_request ro = Ok ro.
+Proof.
+  intros ro H. unfold request_ok in H. apply andb_true_iff in H as [H _]. unfold reorder_route_request.
+  destruct (jget "explicit-route-objects" ro) as [[| | | | |ero]|] eqn:E; try discriminate; [|reflexivity].
+  destruct (jget "route-object-include-exclude" ero) as [[| | | |items|]|] eqn:E2; try discriminate.
+  apply (upd_sub_id _ _ _ ero E). unfold jreq. rewrite E2. cbn [bind]. unfold reorder_keys. cbn [as_arr bind].
+  rewrite (mapM_id (reorder_item "index") items).
+  - cbn [bind]. now rewrite (jset_same _ _ _ E2).
+  - rewrite forallb_forall in H. rewrite Forall_forall. intros it Hit. apply reorder_item_id. auto.
+Qed.
+
+Lemma union_request_id : forall ro, request_ok (JObj ro) = true -> union_request ro = Ok ro.
+Proof.
+  intros ro H. unfold request_ok in H. apply andb_true_iff in H as [_ H]. unfold union_request.
+  destruct (jget "path-constraints" ro) as [[| | | | |pc]|] eqn:E; try discriminate.
+  destruct (jget "te-bandwidth" pc) as [[| | | | |te]|] eqn:E2; try discriminate.
+  apply (upd_sub_id _ _ _ pc E). apply (upd_sub_id _ _ _ te E2). now apply union_te_id.
+Qed.
+
+Lemma on_requests_id : forall f top rs,
+  jget "path-request" top = Some (JArr rs) ->
+  Forall (fun r => exists ro, r = JObj ro /\ f ro = Ok ro) rs -> on_requests f top = Ok top.
+Proof.
+  intros f top rs H HF. unfold on_requests, jreq. rewrite H. cbn [bind as_arr].
+  rewrite (mapM_id _ rs).
+  - cbn [bind]. now rewrite (jset_same _ _ _ H).
+  - rewrite Forall_forall in *. intros r Hr. destruct (HF r Hr) as (ro & -> & Hf). cbn [as_obj bind]. now rewrite Hf.
+Qed.
+
+(* a service document whose lists are already in the shape the YANG schema needs *)
+Definition is_services (o : obj) : bool :=
+  negb (jhas K_elements o) && negb (jhas TOPO_NMSP o) && negb (any_key EQPT_TYPES o) && negb (jhas EQPT_NMSP o)
+  && match jget "path-request" o with Some (JArr rs) => forallb request_ok rs | _ => false end.
+
+Theorem y2l_l2y_services : forall o,
+  is_services (map (fun kv => (fst kv, none_to_empty (snd kv))) o) = true ->
+  legacy_nulls_ok (JObj o) = true -> doc_ok (prec SERV_NMSP) (JObj o) = true ->
+  exists y, legacy_to_yang (JObj o) = Ok y /\ yang_to_legacy y = Ok (JObj o).
+Proof.
+  intros o Hs Hn W. set (o' := map (fun kv => (fst kv, none_to_empty (snd kv))) o) in *.
+  unfold is_services in Hs.
+  apply andb_true_iff in Hs as [Hs H5]. apply andb_true_iff in Hs as [Hs H4].
+  apply andb_true_iff in Hs as [Hs H3]. apply andb_true_iff in Hs as [H1 H2].
+  apply negb_true_iff in H1, H2, H3, H4.
+  destruct (jget "path-request" o') as [[| | | |rs|]|] eqn:Er; try discriminate.
+  assert (Hreq : forall r, In r rs -> exists ro, r = JObj ro /\ request_ok (JObj ro) = true).
+  { rewrite forallb_forall in H5. intros r Hr. specialize (H5 r Hr). destruct r; try discriminate. eauto. }
+  assert (C1 : reorder_route_objects o' = Ok o').
+  { apply (on_requests_id _ _ rs Er). rewrite Forall_forall. intros r Hr.
+    destruct (Hreq r Hr) as (ro & -> & Hro). exists ro. split; [reflexivity|now apply reorder_route_request_id]. }
+  assert (C2 : remove_union_that_fail o' = Ok o').
+  { apply (on_requests_id _ _ rs Er). rewrite Forall_forall. intros r Hr.
+    destruct (Hreq r Hr) as (ro & -> & Hro). exists ro. split; [reflexivity|now apply union_request_id]. }
+  destruct (generic_roundtrip (JObj o) (prec SERV_NMSP) Hn W) as (y0 & G1 & G2).
+  exists (JObj [(SERV_NMSP, y0)]). split.
+  - unfold legacy_to_yang. cbn [none_to_empty as_obj bind]. fold o'.
+    rewrite H1, H2, H3, H4.
+    assert (Hp : jhas "path-request" o' = true) by (unfold jhas; now rewrite Er). rewrite Hp.
+    unfold chain, serv_forth. cbn [fold_left bind]. rewrite C1. cbn [bind]. rewrite C2. cbn [bind].
+    unfold convert_dict. rewrite cd_obj_eq, mapM_cons, mapM_nil. cbn [fst snd].
+    rewrite prec_d_dflt. cbn [none_to_empty] in G1. fold o' in G1. rewrite G1. reflexivity.
+  - unfold yang_to_legacy, convert_back. cbn [empty_to_none map fst snd]. rewrite cb_obj_eq, mapM_cons, mapM_nil.
+    cbn [fst snd]. rewrite G2. cbn [bind as_obj]. reflexivity.
+Qed.
